@@ -15,6 +15,20 @@ well-formedness side invariants, ALL proved preserved (none is a hypothesis of t
   stored positions have `liq > 0` and `lower < upper`; position ids distinct and `< nextPos`; tick store strictly sorted by
   (pool, tick) (hence keys distinct); no stored tick has gross 0; pool ids `< nextPool`; positions' pools `< nextPool`;
   a pool that is not live (`sqrtP = 0 ∧ tick = 0`) has no position.
+
+Swaps: the invariant is proved preserved under a boundary hypothesis, in three forms of decreasing strength
+  `SwapSide`     (former)  (H1) ALL operations derived from the ghost trace are admissible ∧ (H2) written-back pool live;
+  `SwapSide'`    (used by the `…_partial` theorems)  (H1') only the `moveWithin` operations are admissible ∧ (H2);
+  `SwapBoundary` (narrowest, `…_boundary_partial`)   (H1') ∧ (T) the pool's initialised ticks have non-zero sqrt prices.
+Proved: `SwapBoundary → SwapSide' → SwapSide` after a successful swap from a store satisfying `Inv`
+(`swapSide'_of_boundary_exactIn/_exactOut`, `swapSide_of_swapSide'_exactIn/_exactOut`), i.e. the admissibility of every
+tick CROSSING (the crossed tick is the next initialised one in trade direction) and the liveness of the written-back pool
+given (T) are theorems.  What remains assumed is exactly:
+  (H1') for every `.move t` event of the trace (a step that ends strictly inside a bucket and moved the price;
+        `t = sqrtPriceToTick newPrice`): no initialised tick lies between the cursor before the event and `t`
+        (on either side) — consistency of `sqrtPriceToTick` with `tickToSqrtPrice` on the price grid;
+  (T)   `tickToSqrtPrice t p.tp ≠ 0` for the initialised ticks `t` of the pool (see `tick0_price_zero_unvalidated`:
+        false for pool parameters that `createPoolValid` rejects, so (T) needs the parameter validation at least).
 -/
 namespace Sunrise.C04Store
 open Sunrise Sunrise.CL Sunrise.C04Refine Sunrise.C04StoreL
@@ -127,10 +141,12 @@ theorem allocateIncentive_preserves {s s' : CL.St} (hI : Inv s) {pool : Nat} {se
     (h : allocateIncentive s pool sender coins = .ok s') : Inv s' ∧ ∀ pl, BookOK s' pl :=
   ⟨hI.core (allocateIncentive_core h), bookOK_of_inv (hI.core (allocateIncentive_core h))⟩
 
-/-! ### swaps (conditional: see `SwapSide`) -/
+/-! ### swaps (conditional: see `SwapSide'`; `SwapSide` is the former, stronger boundary) -/
 
 open Sunrise.C04RefineLoop (bookOps) in
-/-- **side conditions under which a successful swap on `pool` is covered** (`s` before, `s'` after):
+/-- **the FORMER (stronger) side conditions of the swap theorems**, kept for reference and for the executable check
+    `swapSideB`; the theorems below only need `SwapSide'`, and `SwapSide' → SwapSide` holds after a successful swap from a
+    store satisfying the invariant (`swapSide_of_swapSide'_exactIn/_exactOut`).  (`s` before, `s'` after):
     (H1) the bookkeeping operations derived from the swap's ghost trace (`crossUp t / crossDown t / moveWithin t`, exactly
          what `C04RefineLoop` proves the loop performs) are admissible in the abstraction of the state before the swap
          (`CLBook.Op.guard`: a crossed tick is the next initialised one in the direction of the trade, a cursor move inside
@@ -193,23 +209,112 @@ theorem swapExactOut_inv {s s' : CL.St} {sender : Addr} {pool : Nat} {denomIn de
     obtain ⟨b, hb⟩ := C04Interval.updatePoolForSwap_ok hu
     exact ⟨p, _, _, x.1, x.2, b, rfl, hx, hb⟩
 
-/-- FULL statement (not proved): `Inv s → swapExactIn … = .ok (s', out) → Inv s'`.  Proved here under `SwapSide`. -/
+open Sunrise.C04RefineLoop (bookOps) in
+/-- **the remaining boundary of the swap theorems** (`s` before, `s'` after a successful swap on `pool`):
+    (H1') every CURSOR MOVE INSIDE A BUCKET derived from the swap's ghost trace (`moveWithin t`, `t` = the tick computed by
+          `sqrtPriceToTick` from the price a non-crossing step ends at) is admissible in the abstraction of the state it is
+          applied to (`CLBook.Op.guard`: no initialised tick lies between the old and the new cursor, i.e. the tick
+          computed from the new price lies between the neighbouring initialised ticks).  NOTHING is assumed about the
+          crossings any more: that each crossed tick is the next initialised one in trade direction is PROVED
+          (`swap_guarded_of_moves`: sorted tick store, no empty tick stored, `tickIter` enumerates exactly the stored ticks
+          beyond the cursor, crossings are a prefix of the iterator);
+    (H2)  the pool record written back is live (`¬(sqrtP = 0 ∧ tick = 0)`) or the pool has no position.
+    Both are facts about the PRICE GRID (`tickToSqrtPrice` / `sqrtPriceToTick` monotone and mutually consistent, tick
+    prices positive), which this project models bit-exactly but does not prove. -/
+def SwapSide' (s s' : CL.St) (pool : Nat) : Prop :=
+  (∀ p, getPool s pool = some p → GuardedMoves (bookOps s'.lastTrace) (absBook s pool p)) ∧
+  (∀ q, getPool s' pool = some q → poolLive q = false → poolHasPosition s' pool = false)
+
+/-- the old boundary implies the new one (for any two states) -/
+theorem swapSide'_of_swapSide {s s' : CL.St} {pool : Nat} (h : SwapSide s s' pool) : SwapSide' s s' pool :=
+  ⟨fun p hp => guardedMoves_of_guarded _ _ (h.1 p hp), h.2⟩
+
+/-- **the new boundary implies the old one after a successful `swapExactIn`** from a store satisfying the invariant -/
+theorem swapSide_of_swapSide'_exactIn {s s' : CL.St} (hI : Inv s) {sender : Addr} {pool : Nat} {denomIn denomOut : Denom}
+    {amount : Int} {feeEnabled : Bool} {out : Int}
+    (h : swapExactIn s sender pool denomIn amount denomOut feeEnabled = .ok (s', out)) (hside : SwapSide' s s' pool) :
+    SwapSide s s' pool := by
+  obtain ⟨p, fee, lim, s1, o, b, hp, hc, hs'⟩ := swapExactIn_inv h
+  refine ⟨fun p' hp' => ?_, hside.2⟩
+  have e : p' = p := by rw [hp] at hp'; exact (Option.some.inj hp').symm
+  subst e
+  have hlt : s'.lastTrace = s1.lastTrace := by rw [hs']; rfl
+  have H := hside.1 p' hp
+  rw [hlt] at H ⊢
+  exact swap_guarded_of_moves hI hp hc H
+
+/-- **the new boundary implies the old one after a successful `swapExactOut`** from a store satisfying the invariant -/
+theorem swapSide_of_swapSide'_exactOut {s s' : CL.St} (hI : Inv s) {sender : Addr} {pool : Nat} {denomIn denomOut : Denom}
+    {amount : Int} {feeEnabled : Bool} {out : Int}
+    (h : swapExactOut s sender pool denomOut amount denomIn feeEnabled = .ok (s', out)) (hside : SwapSide' s s' pool) :
+    SwapSide s s' pool := by
+  obtain ⟨p, fee, lim, s1, o, b, hp, hc, hs'⟩ := swapExactOut_inv h
+  refine ⟨fun p' hp' => ?_, hside.2⟩
+  have e : p' = p := by rw [hp] at hp'; exact (Option.some.inj hp').symm
+  subst e
+  have hlt : s'.lastTrace = s1.lastTrace := by rw [hs']; rfl
+  have H := hside.1 p' hp
+  rw [hlt] at H ⊢
+  exact swap_guarded_of_moves hI hp hc H
+
+/-- FULL statement (not proved): `Inv s → swapExactIn … = .ok (s', out) → Inv s'`.  Proved here under `SwapSide'`
+    (admissibility of the cursor moves inside a bucket, liveness of the written-back pool; the crossings need nothing). -/
 theorem swapExactIn_preserves_partial {s s' : CL.St} (hI : Inv s) {sender : Addr} {pool : Nat} {denomIn denomOut : Denom}
     {amount : Int} {feeEnabled : Bool} {out : Int}
-    (h : swapExactIn s sender pool denomIn amount denomOut feeEnabled = .ok (s', out)) (hside : SwapSide s s' pool) :
+    (h : swapExactIn s sender pool denomIn amount denomOut feeEnabled = .ok (s', out)) (hside : SwapSide' s s' pool) :
     Inv s' ∧ ∀ pl, BookOK s' pl := by
   obtain ⟨p, fee, lim, s1, o, b, hp, hc, hs'⟩ := swapExactIn_inv h
-  have := swap_inv_ok hI hp hc hs' (hside.1 p hp) hside.2
+  have := swap_inv_ok' hI hp hc hs' (hside.1 p hp) hside.2
   exact ⟨this, bookOK_of_inv this⟩
 
-/-- FULL statement (not proved): `Inv s → swapExactOut … = .ok (s', out) → Inv s'`.  Proved here under `SwapSide`. -/
+/-- FULL statement (not proved): `Inv s → swapExactOut … = .ok (s', out) → Inv s'`.  Proved here under `SwapSide'`. -/
 theorem swapExactOut_preserves_partial {s s' : CL.St} (hI : Inv s) {sender : Addr} {pool : Nat} {denomIn denomOut : Denom}
     {amount : Int} {feeEnabled : Bool} {out : Int}
-    (h : swapExactOut s sender pool denomOut amount denomIn feeEnabled = .ok (s', out)) (hside : SwapSide s s' pool) :
+    (h : swapExactOut s sender pool denomOut amount denomIn feeEnabled = .ok (s', out)) (hside : SwapSide' s s' pool) :
     Inv s' ∧ ∀ pl, BookOK s' pl := by
   obtain ⟨p, fee, lim, s1, o, b, hp, hc, hs'⟩ := swapExactOut_inv h
-  have := swap_inv_ok hI hp hc hs' (hside.1 p hp) hside.2
+  have := swap_inv_ok' hI hp hc hs' (hside.1 p hp) hside.2
   exact ⟨this, bookOK_of_inv this⟩
+
+open Sunrise.C04RefineLoop (bookOps) in
+/-- **the narrowest boundary proved sufficient**: (H1') as in `SwapSide'`, and instead of (H2) the price-grid fact
+    (T) `TickPricesNonZero s pool`: the sqrt prices `tickToSqrtPrice t p.tp` of the pool's initialised ticks are not zero
+    (a statement about the state BEFORE the swap only).  (H2) then follows (`swap_written_back_live`): the pool is live
+    before a successful swap (`computeSwap` rejects a pool that is not), a crossing sets the price to the crossed tick's
+    price, a cursor move inside a bucket is computed by `sqrtPriceToTick`, which fails on price 0, and a step that does not
+    move the price keeps price and cursor.  No monotonicity of the price and no positivity of the pool price is needed. -/
+def SwapBoundary (s s' : CL.St) (pool : Nat) : Prop :=
+  (∀ p, getPool s pool = some p → GuardedMoves (bookOps s'.lastTrace) (absBook s pool p)) ∧ TickPricesNonZero s pool
+
+/-- (H2) is proved from (T) after a successful `swapExactIn` from a store satisfying the invariant -/
+theorem swapSide'_of_boundary_exactIn {s s' : CL.St} (hI : Inv s) {sender : Addr} {pool : Nat} {denomIn denomOut : Denom}
+    {amount : Int} {feeEnabled : Bool} {out : Int}
+    (h : swapExactIn s sender pool denomIn amount denomOut feeEnabled = .ok (s', out)) (hb : SwapBoundary s s' pool) :
+    SwapSide' s s' pool := by
+  obtain ⟨p, fee, lim, s1, o, b, hp, hc, hs'⟩ := swapExactIn_inv h
+  exact ⟨hb.1, swap_H2_of_tickPrices hI hp hc hs' hb.2⟩
+
+/-- (H2) is proved from (T) after a successful `swapExactOut` from a store satisfying the invariant -/
+theorem swapSide'_of_boundary_exactOut {s s' : CL.St} (hI : Inv s) {sender : Addr} {pool : Nat} {denomIn denomOut : Denom}
+    {amount : Int} {feeEnabled : Bool} {out : Int}
+    (h : swapExactOut s sender pool denomOut amount denomIn feeEnabled = .ok (s', out)) (hb : SwapBoundary s s' pool) :
+    SwapSide' s s' pool := by
+  obtain ⟨p, fee, lim, s1, o, b, hp, hc, hs'⟩ := swapExactOut_inv h
+  exact ⟨hb.1, swap_H2_of_tickPrices hI hp hc hs' hb.2⟩
+
+/-- `swapExactIn` keeps the invariant under the narrowest boundary (H1') + (T) -/
+theorem swapExactIn_preserves_boundary_partial {s s' : CL.St} (hI : Inv s) {sender : Addr} {pool : Nat} {denomIn denomOut : Denom}
+    {amount : Int} {feeEnabled : Bool} {out : Int}
+    (h : swapExactIn s sender pool denomIn amount denomOut feeEnabled = .ok (s', out)) (hb : SwapBoundary s s' pool) :
+    Inv s' ∧ ∀ pl, BookOK s' pl :=
+  swapExactIn_preserves_partial hI h (swapSide'_of_boundary_exactIn hI h hb)
+
+/-- `swapExactOut` keeps the invariant under the narrowest boundary (H1') + (T) -/
+theorem swapExactOut_preserves_boundary_partial {s s' : CL.St} (hI : Inv s) {sender : Addr} {pool : Nat} {denomIn denomOut : Denom}
+    {amount : Int} {feeEnabled : Bool} {out : Int}
+    (h : swapExactOut s sender pool denomOut amount denomIn feeEnabled = .ok (s', out)) (hb : SwapBoundary s s' pool) :
+    Inv s' ∧ ∀ pl, BookOK s' pl :=
+  swapExactOut_preserves_partial hI h (swapSide'_of_boundary_exactOut hI h hb)
 
 /-! ### whole histories -/
 
@@ -238,11 +343,11 @@ def run (s : CL.St) : Op → CL.St
   | .swapExactIn sd pl dI a dO fe => commit s (swapExactIn s sd pl dI a dO fe)
   | .swapExactOut sd pl dO a dI fe => commit s (swapExactOut s sd pl dO a dI fe)
 
-/-- side condition of an operation: none for the seven position / fee / incentive / pool messages; `SwapSide` for a swap
-    that succeeds -/
+/-- side condition of an operation: none for the seven position / fee / incentive / pool messages; `SwapSide'` (cursor
+    moves inside a bucket admissible, written-back pool live) for a swap that succeeds -/
 def SideOK (s : CL.St) : Op → Prop
-  | .swapExactIn sd pl dI a dO fe => ∀ s' out, swapExactIn s sd pl dI a dO fe = .ok (s', out) → SwapSide s s' pl
-  | .swapExactOut sd pl dO a dI fe => ∀ s' out, swapExactOut s sd pl dO a dI fe = .ok (s', out) → SwapSide s s' pl
+  | .swapExactIn sd pl dI a dO fe => ∀ s' out, swapExactIn s sd pl dI a dO fe = .ok (s', out) → SwapSide' s s' pl
+  | .swapExactOut sd pl dO a dI fe => ∀ s' out, swapExactOut s sd pl dO a dI fe = .ok (s', out) → SwapSide' s s' pl
   | _ => True
 
 def Op.isSwap : Op → Bool
@@ -255,7 +360,7 @@ inductive Reachable : CL.St → Prop where
   | init (b : Bank) : Reachable { bank := b }
   | step {s : CL.St} (op : Op) : Reachable s → Reachable (run s op)
 
-/-- the same, every successful swap satisfying `SwapSide` -/
+/-- the same, every successful swap satisfying `SwapSide'` -/
 inductive ReachableP : CL.St → Prop where
   | init (b : Bank) : ReachableP { bank := b }
   | step {s : CL.St} (op : Op) : ReachableP s → SideOK s op → ReachableP (run s op)
@@ -287,10 +392,40 @@ theorem inv_reachable_partial {s : CL.St} (h : ReachableP s) : Inv s := by
 
 /-- FULL statement (not proved): `Reachable s → ∀ pool, BookOK s pool`.
     Proved: for every store reachable by ANY list of operations with arbitrary arguments in which every successful swap
-    satisfies `SwapSide` (price-grid facts, see there), the bookkeeping statement holds for every pool.  All seven
-    non-swap messages are covered unconditionally; failed operations are not committed. -/
+    satisfies `SwapSide'` (price-grid facts: the cursor moves inside a bucket pass no initialised tick, the written-back
+    pool is live; see there — the admissibility of the tick crossings is proved), the bookkeeping statement holds for
+    every pool.  All seven non-swap messages are covered unconditionally; failed operations are not committed. -/
 theorem bookOK_reachable_partial {s : CL.St} (h : ReachableP s) : ∀ pool, BookOK s pool :=
   bookOK_of_inv (inv_reachable_partial h)
+
+/-- side condition of an operation in its narrowest form: `SwapBoundary` for a swap that succeeds -/
+def SideOKB (s : CL.St) : Op → Prop
+  | .swapExactIn sd pl dI a dO fe => ∀ s' out, swapExactIn s sd pl dI a dO fe = .ok (s', out) → SwapBoundary s s' pl
+  | .swapExactOut sd pl dO a dI fe => ∀ s' out, swapExactOut s sd pl dO a dI fe = .ok (s', out) → SwapBoundary s s' pl
+  | _ => True
+
+theorem sideOK_of_sideOKB {s : CL.St} (hI : Inv s) (op : Op) (h : SideOKB s op) : SideOK s op := by
+  cases op with
+  | swapExactIn sd pl dI a dO fe => exact fun s' out hs => swapSide'_of_boundary_exactIn hI hs (h s' out hs)
+  | swapExactOut sd pl dO a dI fe => exact fun s' out hs => swapSide'_of_boundary_exactOut hI hs (h s' out hs)
+  | _ => trivial
+
+/-- every store reachable by operations in which every successful swap satisfies `SwapBoundary` -/
+inductive ReachableB : CL.St → Prop where
+  | init (b : Bank) : ReachableB { bank := b }
+  | step {s : CL.St} (op : Op) : ReachableB s → SideOKB s op → ReachableB (run s op)
+
+theorem reachableP_of_reachableB {s : CL.St} (h : ReachableB s) : ReachableP s := by
+  induction h with
+  | init b => exact ReachableP.init b
+  | step op _ hside ih => exact ReachableP.step op ih (sideOK_of_sideOKB (inv_reachable_partial ih) op hside)
+
+/-- FULL statement (not proved): `Reachable s → ∀ pool, BookOK s pool`.
+    Proved: for every store reachable by ANY list of operations with arbitrary arguments in which every successful swap
+    satisfies `SwapBoundary` — (H1') the cursor moves inside a bucket recorded in its trace pass no initialised tick,
+    (T) the initialised ticks of the pool have non-zero prices — the bookkeeping statement holds for every pool. -/
+theorem bookOK_reachable_boundary_partial {s : CL.St} (h : ReachableB s) : ∀ pool, BookOK s pool :=
+  bookOK_reachable_partial (reachableP_of_reachableB h)
 
 theorem reachableP_of_noSwap {s : CL.St} (h : ReachableNoSwap s) : ReachableP s := by
   induction h with
@@ -418,7 +553,7 @@ example : ReachableP h3s ∧ ∀ pool, BookOK h3s pool := by
     have e : h3s = s' := by
       show commit h3 (swapExactIn h3 "a0" 0 "quote" 1000 "base" true) = s'
       rw [h]; rfl
-    rw [← e]; exact swapSideB_sound h3s_ok.2
+    rw [← e]; exact swapSide'_of_swapSide (swapSideB_sound h3s_ok.2)
   exact ⟨hr, bookOK_reachable_partial hr⟩
 
 /-- two more executed swaps on `h3`, each with a tick CROSSING: 5 000 000 quote in crosses tick 1 upwards (trace ops
@@ -441,17 +576,62 @@ example : (∀ pool, BookOK h3u pool) ∧ (∀ pool, BookOK h3d pool) := by
     have e : h3u = s' := by
       show commit h3 (swapExactIn h3 "a0" 0 "quote" 5000000 "base" true) = s'
       rw [h]; rfl
-    rw [← e]; exact swapSideB_sound h3u_ok.2.1
+    rw [← e]; exact swapSide'_of_swapSide (swapSideB_sound h3u_ok.2.1)
   have hd : ReachableP h3d := by
     refine ReachableP.step _ (reachableP_of_noSwap h3_reachable) ?_
     intro s' out h
     have e : h3d = s' := by
       show commit h3 (swapExactIn h3 "a0" 0 "base" 1000 "quote" true) = s'
       rw [h]; rfl
-    rw [← e]; exact swapSideB_sound h3d_ok.2.1
+    rw [← e]; exact swapSide'_of_swapSide (swapSideB_sound h3d_ok.2.1)
   exact ⟨bookOK_reachable_partial hu, bookOK_reachable_partial hd⟩
 
+/-- the new boundary asks NOTHING of the crossings: a trace consisting of crossings only satisfies (H1') in any state (the
+    old `Guarded` would require each crossed tick to be the next initialised one) -/
+example (b : CLBook.St) : GuardedMoves (Sunrise.C04RefineLoop.bookOps [SwapEv.cross true 7, SwapEv.fee 3, SwapEv.cross true 5]) b :=
+  ⟨trivial, trivial, trivial⟩
+
+/-- `SwapBoundary` holds for the three executed swaps on `h3` (checked by evaluation): non-vacuity of the `…_boundary_…`
+    theorems and of `ReachableB` with swaps, two of them with a tick crossing -/
+theorem h3_tickPrices : tickPricesNonZeroB h3 0 = true := by decide +kernel
+
+example : ReachableB h3s ∧ ReachableB h3u ∧ ReachableB h3d := by
+  have hb : ReachableB h3 := .step _ (.step _ (.step _ (.init bank0) trivial) trivial) trivial
+  refine ⟨?_, ?_, ?_⟩
+  · refine ReachableB.step _ hb ?_
+    intro s' out h
+    have e : h3s = s' := by
+      show commit h3 (swapExactIn h3 "a0" 0 "quote" 1000 "base" true) = s'
+      rw [h]; rfl
+    rw [← e]; exact ⟨(swapSide'_of_swapSide (swapSideB_sound h3s_ok.2)).1, tickPricesNonZeroB_sound h3_tickPrices⟩
+  · refine ReachableB.step _ hb ?_
+    intro s' out h
+    have e : h3u = s' := by
+      show commit h3 (swapExactIn h3 "a0" 0 "quote" 5000000 "base" true) = s'
+      rw [h]; rfl
+    rw [← e]; exact ⟨(swapSide'_of_swapSide (swapSideB_sound h3u_ok.2.1)).1, tickPricesNonZeroB_sound h3_tickPrices⟩
+  · refine ReachableB.step _ hb ?_
+    intro s' out h
+    have e : h3d = s' := by
+      show commit h3 (swapExactIn h3 "a0" 0 "base" 1000 "quote" true) = s'
+      rw [h]; rfl
+    rw [← e]; exact ⟨(swapSide'_of_swapSide (swapSideB_sound h3d_ok.2.1)).1, tickPricesNonZeroB_sound h3_tickPrices⟩
+
+/-- (T) cannot be dropped at the level of this model, whose `createPool` takes UNVALIDATED parameters: with price ratio
+    10⁻⁹ and offset 1000 (both rejected by `createPoolValid`, which demands ratio > 1 and 0 ≤ offset < 1) the sqrt price of
+    tick 0 is computed as 0 without error.  For validated parameters (T) is expected to hold but is not proved here
+    (needs lower bounds for `TickMath.pow` and `Dec.approxSqrt`). -/
+theorem tick0_price_zero_unvalidated :
+    (match TickMath.tickToSqrtPrice 0 ⟨⟨1000000000⟩, ⟨1000 * PREC⟩⟩ with | .ok v => v.isZero | _ => false) = true
+    ∧ createPoolValid "base" "quote" ⟨0⟩ ⟨1000000000⟩ ⟨1000 * PREC⟩ = false := by
+  decide +kernel
+
 #print axioms bookOK_reachable_partial
+#print axioms bookOK_reachable_boundary_partial
+#print axioms swapExactIn_preserves_boundary_partial
+#print axioms swapExactOut_preserves_boundary_partial
+#print axioms swapSide'_of_boundary_exactIn
+#print axioms swapSide'_of_boundary_exactOut
 #print axioms bookOK_reachable_noSwap
 #print axioms active_liquidity_eq_store_partial
 #print axioms tick_gross_net_eq_store_partial
@@ -465,6 +645,8 @@ example : (∀ pool, BookOK h3u pool) ∧ (∀ pool, BookOK h3d pool) := by
 #print axioms allocateIncentive_preserves
 #print axioms swapExactIn_preserves_partial
 #print axioms swapExactOut_preserves_partial
+#print axioms swapSide_of_swapSide'_exactIn
+#print axioms swapSide_of_swapSide'_exactOut
 #print axioms bookOK_of_inv
 
 end Sunrise.C04Store
